@@ -4,11 +4,8 @@
 (* runner.                                                                     *)
 EXTENDS TracerCases, Json, SequencesExt
 VARIABLE x
-ToRec(d) == [m \in DOMAIN d |-> d[m]]
-CaseSeq == SetToSeq(Cases)
-ASSUME PrintT(<<"scripts", Cardinality(Scripts), "cases", Len(CaseSeq)>>)
-ASSUME ndJsonSerialize("cases.ndjson",
-          [i \in DOMAIN CaseSeq |-> [id |-> i, script |-> CaseSeq[i].script, dec |-> CaseSeq[i].dec]])
+ASSUME PrintT(<<"scripts", Cardinality(Scripts), "cases", Cardinality(Cases)>>)
+ASSUME ndJsonSerialize("cases.ndjson", SetToSeq(Cases))
 Init == x = 0
 Next == UNCHANGED x
 =============================================================================
